@@ -5,7 +5,7 @@ the Lean driver)."""
 TRUSTED_BASE = [
     "Lean 4.33 kernel; axioms allowed: propext, Classical.choice, Quot.sound (audited per theorem with #print axioms)",
     "Lean compiler for the ketomodel driver (runs the same definitions the theorems are about)",
-    "fact translator /verif/harness/cmd/facts (go/ast) and its hand-written expectations in Keto/Proofs/FactsTie.lean",
+    "fact translator /verif/harness/cmd/facts (go/ast) and its hand-written expectations in Keto/Proofs/FactsTie*.lean (one module per concern)",
     "correspondence harness /verif/harness/drive (generators, canonicalisation) and ./check",
     "modelled, not verified: the Go code itself; SQL engine semantics (sqlite only), Go runtime/scheduler, encoding libraries",
 ]
@@ -935,7 +935,7 @@ PROPS = {
                         "runs inside Transaction; regenerated SQL fact table); concurrent readers are not sampled by this stream"],
     },
     "C06": {
-        "lean_module": ["Keto.Props.C06", "Keto.Proofs.FactsTie"],
+        "lean_module": ["Keto.Props.C06", "Keto.Proofs.FactsTieSql"],
         "theorems": ["Keto.FactsTie.sqlNid_tie", "Keto.Store.C06_frame", "Keto.Store.C06_frame_single", "Keto.Store.C06_no_leak", "Keto.Store.C06_sql_nid"],
         "streams": [{"name": "engine-c06", "n": {"quick": 120, "thorough": 1200}, "oracle": oracle_c06_engine, "thorough_seeds": 2}, {"name": "store-nets", "n": {"quick": 300, "thorough": 3000}, "oracle": oracle_c06, "thorough_seeds": 3}],
         "rule": STORE_RULE + "; 2-3 networks (Persisters with different network ids, handlers built on each) over ONE database run "
@@ -1016,7 +1016,7 @@ PROPS = {
                      "Keto.C16_unaliased", "Keto.C16_unaliased_tuples", "Keto.C16_same_string_same_id",
                      "Keto.C16_readonly_no_insert", "Keto.C16_error_no_insert", "Keto.C16_table_invariant",
                      "Keto.C16_query_roundtrip", "Keto.C16_known_after_write", "Keto.C16_known_readonly",
-                     "Keto.C16_tree", "Keto.C16_seedOrder_perm"],
+                     "Keto.C16_tree", "Keto.C16_seedOrder_perm", "Keto.C16_one_derivation"],
         "streams": [{"name": "mapper", "n": {"quick": 300, "thorough": 1500}, "oracle": oracle_c16, "thorough_seeds": 3},
                     {"name": "store-faults", "n": {"quick": 150, "thorough": 800}, "oracle": oracle_c16_store, "thorough_seeds": 2},
                     {"name": "expand", "n": {"quick": 150, "thorough": 1000}, "oracle": oracle_c16_tree, "thorough_seeds": 2},
@@ -1108,7 +1108,7 @@ PROPS = {
         "assumptions": [],
     },
     "C15": {
-        "lean_module": ["Keto.Props.C15", "Keto.Props.C15cg", "Keto.Props.C15calls", "Keto.Proofs.FactsTie"],
+        "lean_module": ["Keto.Props.C15", "Keto.Props.C15cg", "Keto.Props.C15calls", "Keto.Proofs.FactsTieChan"],
         "theorems": ["Keto.C15_calls_bounded", "Keto.C15_calls_bounded_of_le", "Keto.C15_calls_bounded_upper",
                      "Keto.C15_check_terminates", "Keto.C15_build_terminates", "Keto.C15_fuel_irrelevant",
                      "Keto.CG.C15_cg_one_at_a_time", "Keto.CG.C15_cg_result", "Keto.CG.C15_cg_result_quiet", "Keto.CG.C15_cg_result_prefix",
@@ -1123,7 +1123,7 @@ PROPS = {
         "assumptions": [],
     },
     "C03": {
-        "lean_module": ["Keto.Props.C03", "Keto.Proofs.FactsTie"],
+        "lean_module": ["Keto.Props.C03", "Keto.Proofs.FactsTieRead"],
         "theorems": ["Keto.FactsTie.readCallShapes_tie", "Keto.C03_no_allow_pos", "Keto.C03_single_error_never_allowed", "Keto.C03_invert_keeps_error",
                      "Keto.C03_and_error_not_member", "Keto.C03_error_never_member", "Keto.C03_checkIsMember_true",
                      "Keto.C03_fault_answer_exact_all", "Keto.C03_fault_independent_all",
